@@ -13,7 +13,7 @@ import json
 import os
 import random
 
-from .. import policy, rfc4511
+from .. import ber, policy, rfc4511
 from ..model import Model
 from ..rfc4511 import NOTICE_OID
 from ..values import Gen, expected_message
@@ -27,8 +27,8 @@ CODES = [4096, 8235, 70, -1, 4294967295, 2 ** 32 + 4096, 2 ** 32 + 80, 2 ** 33 +
 ALT = {"CustomAuth": "AltAuth", "CustomControl": "AltControl", "CustomFilter": "AltFilter"}
 SLOT = {"CustomAuth": "auth", "AltAuth": "auth", "CustomControl": "control", "AltControl": "control",
         "CustomFilter": "filter", "AltFilter": "filter", "EdgeFilter1280": "filter1280", "EdgeFilter2048": "filter2048",
-        "SubEquality": "filter1025"}
-EXTRA_FILTERS = ("EdgeFilter1280", "EdgeFilter2048", "SubEquality")
+        "SubEquality": "filter1025", "SubSimple": "auth10"}
+EXTRA_FILTERS = ("EdgeFilter1280", "EdgeFilter2048", "SubEquality", "SubSimple")  # (further custom types; the last one is a credential)
 
 
 # ------------------------------------------------------------------ child side (runs library code)
@@ -153,7 +153,8 @@ def _registration_semantics(customs_bytes):
     if ok:
         late_c.data_to_send()
         first = rfc4511.enc_msg({"t": "ExtendedResponse", "id": mid1, "controls": [{"t": "Control", "type": "2.16.840.1.113730.3.4.2",
-                                 "critical": False, "value": None}, {"t": "Paged", "critical": False, "size": 1, "cookie": ""}],
+                                 "critical": False, "value": None}, {"t": "Paged", "critical": False, "size": 1, "cookie": ""},
+                                 {"t": "CustomControl", "critical": False, "size": 3}],  # the very OID that is registered later: a plain control for now
                                  "name": None, "value": None, "result": {"code": 0, "matched_dn": "", "diag": ""}})
         guarded("registration-missing/late", "receive before the late registration", late_c.receive, first)
         guarded("registration-missing/late", "register_control after traffic", late_c.register_control, ct.BY_NAME["CustomControl"])
@@ -390,6 +391,18 @@ class C19(PropBase):
             return {"k": "drain", "n": n}
         if x < 0.36:
             return self._custom_pdu(g, rng)
+        if rng.random() < 0.03:
+            # an invalid payload (a complete unit that is no LDAPMessage; a messageID under another tag ...): this session ends
+            # with an error whose text and notification bytes must not depend on what any other session did before
+            if rng.random() < 0.5:
+                data = bytes.fromhex(policy.garbage_unit(rng))
+            else:
+                body = ber.tlv(ber.APPLICATION, True, 23, ber.octets(b"1.2.3", ber.CONTEXT, 0)) if role == "s" else \
+                    ber.tlv(ber.APPLICATION, True, 24, ber.enumerated(0) + ber.octets(b"") + ber.octets(b""))
+                data = ber.sequence([ber.tlv(rng.choice([(ber.UNIVERSAL, 4), (ber.UNIVERSAL, 10), (ber.CONTEXT, 0)])[0], False,
+                                             rng.choice([4, 10, 1]), bytes([rng.choice([1, 2, 3, 77])])), body])
+            self._model_recv(g, data, fatal=True)
+            return self._recv_ops(g, rng, data)
         if role == "c":
             if model.out and x < 0.7:
                 mid = policy.pick_sorted(rng, model.out) if rng.random() < 0.93 else model.last_id + 5
@@ -485,7 +498,14 @@ class C19(PropBase):
         mid = g["next_req"]
         g["next_req"] += 1
         which = rng.choice(TYPES + EXTRA_FILTERS)
-        if which in EXTRA_FILTERS:
+        if which == "SubSimple":
+            if model.out:
+                which = "SubEquality"
+            else:
+                msg = expected_message("bind", {"dn": "cn=x", "auth": {"t": "SubSimple", "password": rng.choice(["pw", "", "pä"])}}, mid)
+        if which == "SubSimple":
+            pass
+        elif which in EXTRA_FILTERS:
             msg = expected_message("search_request", gen.a_search_request(), mid)
             if which == "SubEquality":
                 inner = {"t": "SubEquality", "attribute": "flags", "value": "31"}
